@@ -109,6 +109,38 @@ pub fn run(out_path: &str, tier: &str) {
 			}
 		}
 	}
+	// CustomExtension constructors and accessors
+	for i in 0..n.min(200) {
+		let narcs = 2 + rng.below(6) as usize;
+		let mut oid: Vec<u64> = vec![rng.below(3), rng.below(40)];
+		for _ in 2..narcs {
+			oid.push(rng.next() >> rng.below(64));
+		}
+		let clen = rng.below(40) as usize;
+		let content = rng.bytes(clen);
+		let mut ext = CustomExtension::from_oid_content(&oid, content.clone());
+		let crit0 = ext.criticality();
+		let flip = rng.chance(1, 2);
+		ext.set_criticality(flip);
+		out.event("CustomExtApi", &format!("api-custom/{}", i), json!({"oid": oid, "content": bytes_json(&content), "setCrit": flip}), "Ok", "",
+			json!({"oid": ext.oid_components().collect::<Vec<u64>>(), "content": bytes_json(ext.content()), "critDefault": crit0, "critAfter": ext.criticality()}));
+	}
+	for i in 0..8 {
+		let digest = rng.bytes(32);
+		let ext = CustomExtension::new_acme_identifier(&digest);
+		out.event("AcmeExtApi", &format!("api-acme/{}", i), json!({"digest": bytes_json(&digest)}), "Ok", "",
+			json!({"oid": ext.oid_components().collect::<Vec<u64>>(), "content": bytes_json(ext.content()), "crit": ext.criticality()}));
+	}
+	// KeyPair::as_remote, Debug of every signature algorithm
+	{
+		let remote = live_key("r", "ed25519", "remote", &mut rng).map(|k| k.kp.as_remote().is_some()).unwrap_or(false);
+		#[cfg(feature = "crypto")]
+		let local = live_key("l", "ed25519", "pkcs8-explicit", &mut rng).map(|k| k.kp.as_remote().is_none()).unwrap_or(false);
+		#[cfg(not(feature = "crypto"))]
+		let local = true;
+		let names: Vec<Value> = crate::keydrv::ALL_ALGS.iter().filter_map(|n| alg_static(n).map(|a| json!({"alg": n, "debug": format!("{:?}", a)}))).collect();
+		out.event("MiscApi", "api-misc/0", json!({}), "Ok", "", json!({"remoteIsRemote": remote, "localIsNotRemote": local, "algDebug": names}));
+	}
 	// conversions into pki-types
 	if let Ok(k) = live_key("c", "ed25519", "remote", &mut rng) {
 		let mut d = base_params_desc();
